@@ -114,29 +114,31 @@ theorem C01_stored_extract (files : Files) (fname : String) (bytes : Bytes) (hlo
     (off : Nat) (blks : List DataBlk) (hwf : ∀ b ∈ blks, b.wf) (rest : Bytes)
     (hd : bytes.drop off = blks.flatMap encData ++ rest)
     (p : Params) (hbs : 0 < p.bufSize) (key o l : Nat) (hfit : o + l ≤ (plainOf blks).length)
-    (hmax : (plainOf blks).length ≤ cabLENGTHMAX) (ctHigh : Nat) (hct : compMask (ctHigh * 16) = 0) :
-    ∃ d', extract files p none (storedMember fname off blks.length key o l ctHigh) =
+    (hmax : o + l ≤ cabLENGTHMAX) (ctHigh : Nat) (hct : compMask (ctHigh * 16) = 0)
+    (nblocks : Nat) (hnb : blks.length ≤ nblocks) :
+    ∃ d', extract files p none (storedMember fname off nblocks key o l ctHigh) =
       .done .ok (some (((plainOf blks).drop o).take l)) d' := by
   have hpl := plain_length_le blks hwf
   -- the parameter checks
-  have hcheck : memberCheck p (storedMember fname off blks.length key o l ctHigh) = .ok (l, key) := by
+  have hcheck : memberCheck p (storedMember fname off nblocks key o l ctHigh) = .ok (l, key) := by
     simp only [cabLENGTHMAX] at hmax
+    have hnb' : blks.length * 32768 ≤ nblocks * 32768 := Nat.mul_le_mul_right _ hnb
     have a1 : ¬(o > 2147450880) := by omega
     have a2 : ¬(l > 2147450880 - o) := by omega
-    have a3 : ¬(o > blks.length * 32768) := by omega
-    have a4 : ¬(l > blks.length * 32768 - o) := by omega
+    have a3 : ¬(o > nblocks * 32768) := by omega
+    have a4 : ¬(l > nblocks * 32768 - o) := by omega
     simp only [memberCheck, storedMember, cabLENGTHMAX, cabBLOCKMAX, a1, a2, a3, a4, ↓reduceIte, decide_false, Bool.false_eq_true,
       false_and, or_self, and_false]
   -- a fresh decoder at the start of the folder
-  let fd0 : Feeder := { rd := some ⟨bytes, off⟩, parts := [⟨fname, 0, off⟩], block := 0, numBlocks := blks.length, outlen := 0, buf := [],
+  let fd0 : Feeder := { rd := some ⟨bytes, off⟩, parts := [⟨fname, 0, off⟩], block := 0, numBlocks := nblocks, outlen := 0, buf := [],
                         compType := ctHigh * 16, readError := .ok, lzxLen := none, salvage := p.salvage, fixMszip := p.fixMszip }
-  have hfresh : obtainDState files p none (storedMember fname off blks.length key o l ctHigh) key =
+  have hfresh : obtainDState files p none (storedMember fname off nblocks key o l ctHigh) key =
       .ok { folder := key, offset := 0, dec := some (.none p.bufSize .ok), feeder := fd0 } := by
     unfold obtainDState freshDState storedMember
     simp only [hlook, Option.map_some, initDec, hct]
     rfl
-  have inv0 : FeedInv fd0 blks (plainOf blks) :=
-    ⟨⟨bytes, off, rest, rfl, hd⟩, ⟨⟨fname, 0, off⟩, [], rfl, rfl⟩, by simp [fd0], hct, hwf, by simp [fd0]⟩
+  have inv0 : FeedInv ⟨bytes, rest, blks.length⟩ fd0 blks (plainOf blks) :=
+    ⟨⟨off, rfl, hd⟩, ⟨⟨fname, 0, off⟩, [], rfl, rfl⟩, ⟨by simp [fd0], hnb⟩, hct, hwf, by simp [fd0]⟩
   unfold extract
   rw [hcheck]; simp only; rw [hfresh]; simp only
   unfold runPhases
@@ -147,16 +149,16 @@ theorem C01_stored_extract (files : Files) (fname : String) (bytes : Bytes) (hlo
     simp only [Nat.sub_zero]
     by_cases ho : o = 0
     · subst ho
-      obtain ⟨ds', blks', e, _, _, _⟩ := runPhase_stored files { folder := key, offset := 0, dec := some (.none p.bufSize .ok), feeder := fd0 }
+      obtain ⟨ds', blks', e, _, _, _⟩ := runPhase_stored files _ { folder := key, offset := 0, dec := some (.none p.bufSize .ok), feeder := fd0 }
         p.bufSize hbs blks (plainOf blks) inv0 l (by omega)
       simp only [↓reduceIte, e]
       exact ⟨some ds', by simp⟩
     · simp only [ho, ↓reduceIte]
-      obtain ⟨ds1, blks1, e1, inv1, hdec1, _⟩ := runPhase_stored files { folder := key, offset := 0, dec := some (.none p.bufSize .ok), feeder := fd0 }
+      obtain ⟨ds1, blks1, e1, inv1, hdec1, _⟩ := runPhase_stored files _ { folder := key, offset := 0, dec := some (.none p.bufSize .ok), feeder := fd0 }
         p.bufSize hbs blks (plainOf blks) inv0 o (by omega)
       rw [e1]
       simp only [ne_eq, not_true_eq_false, ↓reduceIte, hdec1]
-      obtain ⟨ds2, blks2, e2, _, _, _⟩ := runPhase_stored files ds1 p.bufSize hbs blks1 ((plainOf blks).drop o) inv1 l
+      obtain ⟨ds2, blks2, e2, _, _, _⟩ := runPhase_stored files _ ds1 p.bufSize hbs blks1 ((plainOf blks).drop o) inv1 l
         (by rw [List.length_drop]; omega)
       rw [e2]
       exact ⟨some ds2, rfl⟩
